@@ -16,7 +16,7 @@ from harness.enc import IdMap, tag, untag
 from harness.core import Machinery
 from pyg_base import dictable, dict_concat
 
-EXC = (ValueError, KeyError, IndexError, TypeError, AttributeError)
+HARNESS_FRAMES = {'step', 'construct', 'make_fn', 'fn', 'dofn', 'item', 'spec', 'arg', 'enc_map', 'shape_of', 'untag', 'tag'}
 OK = ['ok', 0]
 
 # ---- rendering of abstract functions --------------------------------------------------------------------------
@@ -39,7 +39,7 @@ def fn(f):
 
 
 def dofn(g):
-    return make_fn(g['kind'], ['v'] + list(g['extras']))
+    return make_fn(g['kind'], ['_v'] + list(g['extras']))      # lambda _v, <extras>: the cell first, then the named columns
 
 
 NAMEFN = {'double': lambda c: c + c, 'const_k': lambda c: 'k', 'ab_to_c': lambda c: 'c' if c in ('a', 'b') else c}
@@ -69,6 +69,9 @@ def construct(seed, ids, k):
         if how == 'zip':
             return dictable(zip(names, values))
         return dictable(dict(zip(names, values))) if k % 2 else dictable(data=dict(zip(names, values)))
+    if kind == 'single':
+        vals = [untag(v, ids) for v in seed['vals']]
+        return dictable(vals, seed['name']) if k % 2 else dictable(data=vals, columns=seed['name'])
     rows = [[untag(v, ids) for v in row] for row in seed['rows']]
     hdrs = list(seed['hdrs'])
     if kind == 'frame':
@@ -94,12 +97,15 @@ def shape_of(d):
     lines = s.split('\n') if s else []
     header = [x.strip() for x in lines[0].split('|')] if lines else []
     mid = [int(x.group(1)) for x in (re.match(r'^\.\.\.(\d+) rows\.\.\.$', l) for l in r[1:]) if x]
-    return (int(m.group(1)), int(m.group(2)), header, len(lines), mid[0] if mid else 0)
+    return (int(m.group(1)) if m else -1, int(m.group(2)) if m else -1, header, len(lines), mid[0] if mid else 0)
 
 
 def step(regs, h, ids, k):
     """one public call; returns the encoded outcome"""
     op = h['op']
+    for key in ('r', 'r2'):
+        if key in h and h[key] not in regs:       # only after an earlier call went wrong: the specification has a table there, the session has not
+            return ['exc', 'NoSuchTable']
     try:
         if op == 'NewX':
             regs[h['rd']] = construct(h['seed'], ids, k); return OK
@@ -182,6 +188,11 @@ def step(regs, h, ids, k):
         regs[h['rd']] = res
         return OK
     except Exception as e:          # whatever the library raises is an outcome; the specification says which ones are right
+        tb = e.__traceback__
+        while tb.tb_next is not None:
+            tb = tb.tb_next
+        if tb.tb_frame.f_code.co_name in HARNESS_FRAMES or isinstance(e, (SyntaxError, NameError)):
+            raise                   # ... but not what the driver itself got wrong while rendering the call
         return ['exc', type(e).__name__]
 
 
@@ -235,12 +246,33 @@ def expected(snap):
     return exp
 
 
+def seed_form(seed):
+    """stable, matchable description of a construction form"""
+    n = len(seed.get('rows', seed.get('vals', seed.get('recs', []))))
+    if seed['kind'] == 'cols':
+        n = max([len(a[1]) if a[0] == 'l' else 1 for a in seed['args']] or [0])
+    name = seed.get('name', '')
+    return {'form': seed['kind'] + (':' + seed['how'] if 'how' in seed else ''), 'nrows': 'none' if n == 0 else 'some',
+            'name_len': 'one' if len(name) == 1 else 'many' if name else 'n/a'}
+
+
 def case_of(hist, where):
     last = hist[-1]
     c = {'op': last['op'], 'ops': [h['op'] for h in hist], 'hist': hist, 'source': where}
     if last['op'] == 'Relabel': c['form'] = last['form']['kind']
-    if last['op'] == 'NewX': c['form'] = last['seed']['kind'] + ':' + last['seed'].get('how', '')
+    if last['op'] == 'NewX': c.update(seed_form(last['seed']))
     return c
+
+
+BAD_SEEDS = {}     # construction forms that already fail on their own (found in the exhaustive depth-1 behaviours): json(seed) -> clause
+
+
+def culprit(hist):
+    """a construction that fails on its own fails in every history: attribute the history to it (and to nothing else)"""
+    for k, h in enumerate(hist):
+        if h['op'] == 'NewX' and json.dumps(h['seed'], sort_keys=True) in BAD_SEEDS:
+            return k
+    return None
 
 
 def clause_of(got, exp):
@@ -262,7 +294,16 @@ def check(ctx, snap, where):
     if len(set(ops)) >= 2:
         ctx.note(json.dumps(snap['hist'], sort_keys=True))
     if got != exp:
-        ctx.violation(clause_of(got, exp), case_of(snap['hist'], where), {'expected': exp, 'observed': got})
+        k = culprit(snap['hist'])
+        if k is not None and len(snap['hist']) > 1:
+            seed = snap['hist'][k]['seed']
+            case = case_of(snap['hist'][:k + 1], where); case['consequence_in'] = ops
+            ctx.violation(BAD_SEEDS[json.dumps(seed, sort_keys=True)], case, {'note': 'this history contains a construction that fails on its own'})
+        else:
+            clause = clause_of(got, exp)
+            if len(snap['hist']) == 1 and snap['hist'][0]['op'] == 'NewX':
+                BAD_SEEDS[json.dumps(snap['hist'][0]['seed'], sort_keys=True)] = clause
+            ctx.violation(clause, case_of(snap['hist'], where), {'expected': exp, 'observed': got})
     return got == exp
 
 
@@ -272,6 +313,10 @@ POOL = [["n", 0], ["n", 0], ["i", 1], ["i", 2], ["i", 0], ["i", 3], ["s", "x"], 
 COLS = ['a', 'b', 'c', 'e', 'key', 'x', 'y', 'z', 'p', 'q', 'w']
 COLU = set(COLS)
 KINDS = [('tuple', 0, 3), ('list', 1, 2), ('ident', 1, 1), ('isnone', 1, 1), ('coalesce', 1, 3), ('const', 0, 0)]
+
+
+def uniq(xs):
+    return list(dict.fromkeys(xs))
 
 
 def rand_event(rng, regs):
@@ -289,9 +334,11 @@ def rand_event(rng, regs):
         if q < 0.9: return ['l', column(n)]
         return ['l', column(rng.choice([0, 2, n + 1]))]
     def seed():
-        kind = rng.choice(['recs', 'recs', 'cols', 'cols', 'rows', 'rows', 'frame', 'long'])
+        kind = rng.choice(['recs', 'recs', 'cols', 'cols', 'rows', 'rows', 'frame', 'long', 'long', 'single'])
         n = rng.choice([0, 1, 2, 3, 4, 7])
         cs = rng.sample(COLS, rng.choice([1, 2, 3]))
+        if kind == 'single':
+            return {'kind': 'single', 'name': rng.choice(['a', 'ab', 'name', 'key']), 'vals': column(rng.choice([0, 1, 2, 3]))}
         if kind == 'long':
             n = rng.choice([1, 2, 3, 4, 5])
             return {'kind': 'cols', 'how': 'dict', 'cols': ['x', 'y', 'z'], 'args': [['l', column(n, 'int')], ['l', column(n, 'str')], ['l', column(n)]]}
@@ -304,7 +351,6 @@ def rand_event(rng, regs):
             return {'kind': 'cols', 'how': rng.choice(['dict', 'zip']), 'cols': cs, 'args': [colarg(n) for _ in cs]}
         if kind == 'rows':
             how = rng.choice(['header', 'plain', 'ziprows', 'frame'])
-            if how == 'header': n = max(n, 1)
             if how == 'frame':      # a DataFrame column is all ints or all strings (None would come back as NaN)
                 columns = [column(n, rng.choice(['int', 'str'])) for _ in cs]
                 return {'kind': 'rows', 'how': how, 'hdrs': cs, 'rows': [[col[i] for col in columns] for i in range(n)]}
@@ -379,7 +425,7 @@ def rand_event(rng, regs):
     if op == 'Relabel':
         kind = rng.choice(['map', 'map', 'map', 'fn', 'fnmap', 'prefix', 'suffix', 'list'])
         target = lambda: rng.choice(cols + ['d', 'k', 'z']) if cols else 'd'
-        pairs = [[c, target()] for c in rng.sample(cols + ['zz'], rng.randint(1, min(2, len(cols) + 1)))]
+        pairs = [[c, target()] for c in rng.sample(uniq(cols + ['zz']), rng.randint(1, min(2, len(uniq(cols + ['zz'])))))]
         if kind == 'map': form = {'kind': kind, 'how': rng.choice(['kw', 'dict']), 'pairs': pairs}
         elif kind == 'fn': form = {'kind': kind, 'fn': rng.choice(sorted(NAMEFN))}
         elif kind == 'fnmap': form = {'kind': kind, 'fn': rng.choice(sorted(NAMEFN)), 'pairs': pairs}
@@ -411,8 +457,8 @@ def rand_event(rng, regs):
         if none[0] == 'vals':
             none[1] = [v for v in none[1] if v[0] not in ('nan', 'n', 'inf')] or [["i", 1]]
         kws = []
-        for c in rng.sample(cols + ['zz', 'w'], rng.randint(0, min(2, len(cols) + 2))):
-            kws.append([c, ['s', val()]] if rng.random() < 0.5 else [c, ['f', rfn(['key'])]])
+        for c in rng.sample(uniq(cols + ['zz', 'w']), rng.randint(0, 2)):
+            kws.append([c, ['s', val()]] if rng.random() < 0.5 else [c, ['f', rfn(['key'], 0.25)]])
         return {'op': op, 'r': r, 'rd': rd, 'none': none, 'kws': kws}
     if op == 'SetCol':
         return {'op': op, 'r': r, 'c': rng.choice(COLS), 'arg': colarg(n)}
@@ -495,14 +541,26 @@ def binding(ctx, obs):
     raise Machinery('no observation suitable for the binding demonstration')
 
 
+def accept_proposed(ctx):
+    """VERIF_X02_ACCEPT_PROPOSED=1: treat the PROPOSED known findings of extensions/X02.known.json as known (used for the
+    sensitivity runs, so that a mutant shows as exit 1 against a baseline of exit 0); by default they are reported"""
+    import os
+    if os.environ.get('VERIF_X02_ACCEPT_PROPOSED') == '1':
+        with open(os.path.join(os.path.dirname(os.path.dirname(os.path.abspath(__file__))), 'extensions', 'X02.known.json')) as f:
+            ctx.known = ctx.known + [k for k in json.load(f)['known'] if k['property'] == 'X02']
+        ctx.extra['proposed_known_findings_accepted'] = True
+
+
 def run(ctx):
+    accept_proposed(ctx)
     ctx.rule = ('every behaviour of the session state machine DictableX.tla (all call sequences of length <= 2 from the menus; simulated '
                 'sequences of length 6 and 10) replayed on real dictables; outcome of the last call (ok / exception class / returned value) and all '
                 'live tables (ordered column list, len, shape, iteration, d[i][c], d[c][i], aliasing) compared with what TLC printed. '
                 'Non-trivial = at least two different operations.')
     ctx.mc('DictableX', 'DictableX_mc3.cfg' if ctx.quick else 'DictableX_mc3laws.cfg')
     snaps = ctx.generate('DictableX', 'DictableX_gen2.cfg')
-    for s in snaps:
+    BAD_SEEDS.clear()
+    for s in sorted(snaps, key=lambda s: len(s['hist'])):         # the single calls first: a construction that fails on its own is found there
         check(ctx, s, 'exhaustive-depth-2')
     ctx.sample({'history': snaps[len(snaps) // 2]['hist'], 'expected_out': snaps[len(snaps) // 2]['out'], 'expected_state': snaps[len(snaps) // 2]['regs']})
     for cfg, num, depth, cap in ([('DictableX_sim6.cfg', 900, 7, 3000)] if ctx.quick else
